@@ -164,4 +164,16 @@ pub struct OddConstraints<T, U> { pub a: T, pub b: U }
 #[typeshare(swift = "", kotlin = "")]
 pub struct EmptyDecorators { pub v: u32 }
 "#),
+    ("long_non_ascii_unsupported_type_0", r#"#[typeshare]
+pub struct LongExotic0 { pub f: Box<dyn Fn(A, ÄäÄäÄäÄäÄäÄäÄäÄäÄäÄäÄäÄä, ÄäÄäÄäÄäÄäÄäÄäÄäÄäÄäÄäÄä, ÄäÄäÄäÄäÄäÄäÄäÄäÄäÄäÄäÄä, ÄäÄäÄäÄäÄäÄäÄäÄäÄäÄäÄäÄä, ÄäÄäÄäÄäÄäÄäÄäÄäÄäÄäÄäÄä, ÄäÄäÄäÄäÄäÄäÄäÄäÄäÄäÄäÄä, ÄäÄäÄäÄäÄäÄäÄäÄäÄäÄäÄäÄä, ÄäÄäÄäÄäÄäÄäÄäÄäÄäÄäÄäÄä) -> ÄäÄäÄäÄäÄäÄäÄäÄäÄäÄäÄäÄä> }
+"#),
+    ("long_non_ascii_unsupported_type_1", r#"#[typeshare]
+pub struct LongExotic1 { pub f: Box<dyn Fn(Ab, ÄäÄäÄäÄäÄäÄäÄäÄäÄäÄäÄäÄä, ÄäÄäÄäÄäÄäÄäÄäÄäÄäÄäÄäÄä, ÄäÄäÄäÄäÄäÄäÄäÄäÄäÄäÄäÄä, ÄäÄäÄäÄäÄäÄäÄäÄäÄäÄäÄäÄä, ÄäÄäÄäÄäÄäÄäÄäÄäÄäÄäÄäÄä, ÄäÄäÄäÄäÄäÄäÄäÄäÄäÄäÄäÄä, ÄäÄäÄäÄäÄäÄäÄäÄäÄäÄäÄäÄä, ÄäÄäÄäÄäÄäÄäÄäÄäÄäÄäÄäÄä) -> ÄäÄäÄäÄäÄäÄäÄäÄäÄäÄäÄäÄä> }
+"#),
+    ("long_non_ascii_unsupported_type_2", r#"#[typeshare]
+pub struct LongExotic2 { pub f: Box<dyn Fn(Abcdefghijklmnopqrstu, ÄäÄäÄäÄäÄäÄäÄäÄäÄäÄäÄäÄä, ÄäÄäÄäÄäÄäÄäÄäÄäÄäÄäÄäÄä, ÄäÄäÄäÄäÄäÄäÄäÄäÄäÄäÄäÄä, ÄäÄäÄäÄäÄäÄäÄäÄäÄäÄäÄäÄä, ÄäÄäÄäÄäÄäÄäÄäÄäÄäÄäÄäÄä, ÄäÄäÄäÄäÄäÄäÄäÄäÄäÄäÄäÄä, ÄäÄäÄäÄäÄäÄäÄäÄäÄäÄäÄäÄä, ÄäÄäÄäÄäÄäÄäÄäÄäÄäÄäÄäÄä) -> ÄäÄäÄäÄäÄäÄäÄäÄäÄäÄäÄäÄä> }
+"#),
+    ("long_ascii_unsupported_type", r#"#[typeshare]
+pub struct LongAscii { pub f: Box<dyn Fn(SomeRatherLongTypeName, SomeRatherLongTypeName, SomeRatherLongTypeName, SomeRatherLongTypeName, SomeRatherLongTypeName, SomeRatherLongTypeName, SomeRatherLongTypeName, SomeRatherLongTypeName, SomeRatherLongTypeName, SomeRatherLongTypeName, SomeRatherLongTypeName, SomeRatherLongTypeName) -> SomeRatherLongTypeName> }
+"#),
 ];
